@@ -3,6 +3,7 @@ import copy, glob, json, os
 import keys as K
 import jwegen as E
 from jwsgen import b64u, b64d, enc as encj
+import jwsgen as G
 from props.c03 import compare, strip
 
 ID = "C04"
@@ -152,8 +153,49 @@ def run(ctx):
             dec_ops.append(("jwe.dec", {"jwe": tok, "jwk": a["jwk"], "rand": "00" * 600, "_pt": a["pt"], "_why": why}))
             foreign = pool["oct-128"] if not isinstance(a["jwk"], dict) or a["jwk"].get("kty") != "oct" else pool["EC-P256-b"]
             dec_ops.append(("jwe.dec", {"jwe": tok, "jwk": foreign, "rand": "00" * 600, "_expect_fail": True, "_why": why + " foreign key"}))
+            # "and no other": a key of the SAME kind and size, so that only the cryptography (key-wrap integrity, the
+            # content tag) can refuse it - a foreign key of another type or size fails long before
+            k0 = a["jwk"]
+            if isinstance(k0, str):
+                twin = k0[:-1] + ("x" if k0[-1] != "x" else "y")
+            elif k0.get("kty") == "oct":
+                kb = bytearray(G.b64d(k0["k"]))
+                kb[-1] ^= 1
+                twin = dict(k0, k=G.b64u(bytes(kb)))
+            elif k0.get("kty") == "EC":
+                twin = next((pool[n_] for n_ in sorted(pool) if isinstance(pool[n_], dict) and pool[n_].get("crv") == k0["crv"] and pool[n_].get("x") != k0["x"]), None)
+            else:
+                twin = next((pool[n_] for n_ in ("RSA-2048-b", "RSA-2048") if pool[n_]["n"] != k0["n"]), None)
+            if twin is not None and a["_wrap"] != "RSA1_5":
+                dec_ops.append(("jwe.dec", {"jwe": tok, "jwk": twin, "rand": "00" * 600, "_expect_fail": True, "_why": why + " a key of the same kind and size"}))
     cmp(ctx, dec_ops, p_dec)
     ctx.count("tokens", len(dec_ops) // 2)
+    # encryption to PUBLIC keys (what a sender has), decryption with the private half; content key given without `alg`;
+    # `zip` outside the protected header is not honoured (C15) but the token still round-trips
+    pub_ops = []
+    for wrap in E.ECDH + E.RSA:
+        enc = rng.choice(E.ENCS)
+        key = E.key_for(pool, wrap, enc, rng)
+        pub_ops.append(("jwe.enc", {"jwe": {"protected": {"alg": wrap, "enc": enc}}, "jwk": K.public(key), "pt": pts[2].hex(), "rand": rng.randbytes(300).hex(),
+                                    "_wrap": wrap, "_enc": enc, "_zip": False, "_expect_ok": True, "_priv": key}))
+        pub_ops.append(("jwe.enc", {"jwe": {"protected": {"enc": enc}}, "jwk": {"keys": [K.public(key)]}, "pt": pts[2].hex(), "rand": rng.randbytes(300).hex(),
+                                    "_wrap": wrap, "_enc": enc, "_zip": False, "_expect_ok": True, "_priv": key}))
+    for n_ in (16, 24, 32, 48, 64):
+        pub_ops.append(("jwe.enc_cek", {"jwe": {}, "cek": {"kty": "oct", "k": G.b64u(rng.randbytes(n_))}, "pt": pts[3].hex(), "rand": rng.randbytes(64).hex(), "_expect_ok": True, "_cekonly": True}))
+    pub_ops.append(("jwe.enc_cek", {"jwe": {"protected": "e30"}, "cek": {"kty": "oct", "k": G.b64u(rng.randbytes(16)), "alg": "A128GCM"}, "pt": pts[3].hex(), "rand": rng.randbytes(64).hex(),
+                                    "_expect_ok": True, "_cekonly": True}))
+    pub_ops.append(("jwe.enc", {"jwe": {"protected": {"alg": "A128KW", "enc": "A128GCM"}, "unprotected": {"zip": "DEF"}}, "jwk": pool["oct-16"], "pt": pts[5].hex(),
+                                "rand": rng.randbytes(300).hex(), "_wrap": "A128KW", "_enc": "A128GCM", "_zip": False, "_expect_ok": True, "_priv": pool["oct-16"]}))
+    rp, mp = cmp(ctx, pub_ops, p_enc)
+    d2 = []
+    for (o, a), r in zip(pub_ops, rp):
+        if not r.get("ok"):
+            continue
+        if a.get("_cekonly"):
+            d2.append(("jwe.dec_cek", {"jwe": r["jwe"], "cek": a["cek"], "_pt": a["pt"], "_why": "content key without alg / encoded empty protected"}))
+        else:
+            d2.append(("jwe.dec", {"jwe": r["jwe"], "jwk": a["_priv"], "rand": "00" * 600, "_pt": a["pt"], "_why": "encrypted to the public half (%s)" % a["_wrap"]}))
+    cmp(ctx, d2, p_dec)
     run_infer(ctx, pool, pts)
     run_params(ctx, pool, pts)
     run_multi(ctx, pool, pts)
